@@ -11,7 +11,7 @@ import time
 VERIF = os.path.dirname(os.path.dirname(os.path.abspath(__file__)))
 EVIDENCE_DIR = os.environ.get('VERIF_EVIDENCE_DIR') or os.path.join(VERIF, 'evidence')
 REPLAY_DIR = os.environ.get('VERIF_REPLAY_DIR') or os.path.join(VERIF, 'replays')
-KNOWN_FILE = os.path.join(VERIF, 'known_findings.jsonl')
+KNOWN_FILE = os.path.join(VERIF, 'known_findings.txt')
 
 NPROC = int(os.environ.get('VERIF_NPROC', '16'))
 
@@ -44,20 +44,28 @@ def harness_exit(msg):
 _WORKER_FN = None
 _WORKER_CTX = None
 _WORKER_MARK = None
+_CUR_INDEX = None
+
+
+def mark(detail=None):
+    """Records what this worker is about to do, so that the parent can attribute a process death."""
+    if _WORKER_MARK:
+        with open(os.path.join(_WORKER_MARK, str(os.getpid())), 'w') as f:
+            f.write(json.dumps({'index': _CUR_INDEX, 'detail': detail}, default=str))
 
 
 def _worker_entry(batch, deadline, per_batch_timeout):
+    global _CUR_INDEX
     faulthandler.dump_traceback_later(per_batch_timeout, exit=True)
     out = []
     try:
-        for item in batch:
+        for idx, item in batch:
             if deadline is not None and time.time() > deadline:
-                out.append(('skipped', item))
+                out.append(('skipped', idx, None))
                 continue
-            if _WORKER_MARK:
-                with open(os.path.join(_WORKER_MARK, str(os.getpid())), 'w') as f:
-                    f.write(json.dumps(item))
-            out.append(('done', item, _WORKER_FN(_WORKER_CTX, item)))
+            _CUR_INDEX = idx
+            mark()
+            out.append(('done', idx, _WORKER_FN(_WORKER_CTX, item)))
         if _WORKER_MARK:
             try:
                 os.remove(os.path.join(_WORKER_MARK, str(os.getpid())))
@@ -68,77 +76,69 @@ def _worker_entry(batch, deadline, per_batch_timeout):
     return out
 
 
-def run_parallel(fn, ctx, items, nproc=None, deadline=None, chunk=20, per_batch_timeout=600, mark_dir=None,
-                 on_result=None):
+def run_parallel(fn, ctx, items, nproc=None, deadline=None, chunk=20, per_batch_timeout=600, mark_dir=None):
     """Runs fn(ctx, item) for every item on forked workers (ctx is inherited, not pickled).
-    Returns (results, skipped, crashed) — crashed = items in flight when a worker process died."""
+    Returns (results [(item, value)], skipped [item], crashed [{'item', 'detail'}]) — crashed = the
+    items in flight when a worker process died (only attributed when mark_dir is given)."""
     global _WORKER_FN, _WORKER_CTX, _WORKER_MARK
     nproc = nproc or NPROC
     _WORKER_FN, _WORKER_CTX, _WORKER_MARK = fn, ctx, mark_dir
     items = list(items)
-    batches = [items[i:i + chunk] for i in range(0, len(items), chunk)]
+    indexed = list(enumerate(items))
+    batches = [indexed[i:i + chunk] for i in range(0, len(indexed), chunk)]
     results, skipped, crashed = [], [], []
+
+    def absorb(recs):
+        for kind, idx, val in recs:
+            if kind == 'done':
+                results.append((items[idx], val))
+            else:
+                skipped.append(items[idx])
     if nproc <= 1:
         for b in batches:
-            for rec in _worker_entry(b, deadline, per_batch_timeout):
-                if rec[0] == 'done':
-                    results.append((rec[1], rec[2]))
-                    if on_result:
-                        on_result(rec[1], rec[2])
-                else:
-                    skipped.append(rec[1])
+            absorb(_worker_entry(b, deadline, per_batch_timeout))
         return results, skipped, crashed
     mp = multiprocessing.get_context('fork')
     pending = list(batches)
+    rounds = 0
     while pending:
+        rounds += 1
         broken = False
+        done_ids = set()
         with cf.ProcessPoolExecutor(max_workers=nproc, mp_context=mp) as ex:
-            futs = {ex.submit(_worker_entry, b, deadline, per_batch_timeout): b for b in pending}
-            done_batches = []
+            futs = {ex.submit(_worker_entry, b, deadline, per_batch_timeout): k for k, b in enumerate(pending)}
             try:
                 for f in cf.as_completed(futs):
-                    b = futs[f]
                     try:
                         recs = f.result()
                     except cf.process.BrokenProcessPool:
                         broken = True
                         continue
-                    done_batches.append(b)
-                    for rec in recs:
-                        if rec[0] == 'done':
-                            results.append((rec[1], rec[2]))
-                            if on_result:
-                                on_result(rec[1], rec[2])
-                        else:
-                            skipped.append(rec[1])
+                    done_ids.add(futs[f])
+                    absorb(recs)
             except cf.process.BrokenProcessPool:
                 broken = True
-        pending = [b for b in pending if b not in done_batches]
-        if broken:
-            if mark_dir is None:
-                raise HarnessFailure('worker process died (no crash attribution requested)')
-            # attribute: the items recorded as in flight by dead workers
-            inflight = []
-            for name in os.listdir(mark_dir):
-                p = os.path.join(mark_dir, name)
-                try:
-                    inflight.append(json.loads(open(p).read()))
-                except Exception:
-                    pass
-                os.remove(p)
-            if not inflight:
-                raise HarnessFailure('worker process died and no in-flight item was recorded')
-            crashed.extend(inflight)
-            # re-queue every unfinished item except the crashing ones, one item per batch is too slow;
-            # keep batches but drop the crashing items
-            new_pending = []
-            for b in pending:
-                nb = [it for it in b if it not in inflight]
-                if nb:
-                    new_pending.append(nb)
-            pending = new_pending
-        else:
+        pending = [b for k, b in enumerate(pending) if k not in done_ids]
+        if not broken:
+            if pending:
+                raise HarnessFailure('batches left unfinished without a worker death')
             break
+        if mark_dir is None:
+            raise HarnessFailure('worker process died (no crash attribution requested)')
+        dead = set()
+        for name in os.listdir(mark_dir):
+            p = os.path.join(mark_dir, name)
+            try:
+                rec = json.loads(open(p).read())
+                dead.add(rec['index'])
+                crashed.append({'item': items[rec['index']], 'detail': rec['detail']})
+            except Exception:
+                pass
+            os.remove(p)
+        if not dead or rounds > 50:
+            raise HarnessFailure('worker process died and the item in flight could not be identified')
+        pending = [[(i, it) for i, it in b if i not in dead] for b in pending]
+        pending = [b for b in pending if b]
     return results, skipped, crashed
 
 
@@ -169,20 +169,18 @@ def write_evidence(pid, tier, seed, level, coverage, assumptions, wall_s, violat
 
 
 def load_known(pid):
-    """known: lines for this property -> {signature: description}.  fixed: lines suppress nothing."""
+    """'known:' lines for this property -> {signature: description}.  'fixed:' lines suppress nothing."""
     known = {}
     if not os.path.exists(KNOWN_FILE):
         return known
     for line in open(KNOWN_FILE):
         line = line.strip()
-        if not line or line.startswith('#'):
+        if not line.startswith('known:'):
             continue
-        try:
-            rec = json.loads(line)
-        except ValueError:
+        parts = line.split(None, 3)
+        if len(parts) < 3 or parts[1] != f'property={pid}' or not parts[2].startswith('signature='):
             continue
-        if rec.get('status') == 'known' and rec.get('property') == pid:
-            known[rec['signature']] = rec.get('what', '')
+        known[parts[2][len('signature='):]] = parts[3] if len(parts) > 3 else ''
     return known
 
 
